@@ -190,6 +190,18 @@ def channels(f: Func, index: Optional[RepoIndex] = None,
                     return None
                 finally:
                     _depth[0] -= 1
+        if isinstance(e, ast.Call) and src(e.func) == 'len' and len(e.args) == 1 and \
+                not e.keywords:
+            # the number of configured colours / types: distinct non-negative indices, so at
+            # most the largest + 1 (and nothing more is known: symbols NC / NT)
+            base = w.expand(e.args[0])
+            if isinstance(base, ast.Name) and base.id in gp:
+                ann = {a.arg: src(a.annotation) for a in f.node.args.args if a.annotation}
+                t_ = ann.get(base.id, '')
+                if 'Color' in t_ and 'GridObject' not in t_:
+                    return Aff.sym('NC')
+                if 'GridObject' in t_ and 'Color' not in t_:
+                    return Aff.sym('NT')
         if isinstance(e, ast.Call) and isinstance(e.func, ast.Attribute) and \
                 e.func.attr == 'type_index' and not e.args:
             return Aff.sym('t')
@@ -295,6 +307,11 @@ def facts_tsc() -> Facts:
     F.add_le(S('LC'), S('C'))
     F.add_ge(S('LT'), 0)
     F.add_le(S('LT'), S('T'))
+    # sizes of the configured sets: at least the object / colour at hand, at most one per index
+    F.add_ge(S('NC'), 1)
+    F.add_le(S('NC'), S('C') + 1)
+    F.add_ge(S('NT'), 1)
+    F.add_le(S('NT'), S('T') + 1)
     return F
 
 
@@ -313,9 +330,9 @@ def per_object_bounds(index: RepoIndex, rep, rule: str) -> None:
             hi_ok = prove_ge0(b - c, F)
             wit = None
             if not hi_ok:
-                wit = find_counterexample(b - c, F, ['t', 's', 'c', 'T', 'S', 'C', 'LS', 'LC', 'LT'], 0, 4)
+                wit = find_counterexample(b - c, F, ['t', 's', 'c', 'T', 'S', 'C', 'LS', 'LC', 'LT', 'NC', 'NT'], 0, 4)
             if not lo_ok:
-                wit = find_counterexample(c, F, ['t', 's', 'c', 'T', 'S', 'C', 'LS', 'LC', 'LT'], 0, 4)
+                wit = find_counterexample(c, F, ['t', 's', 'c', 'T', 'S', 'C', 'LS', 'LC', 'LT', 'NC', 'NT'], 0, 4)
             if lo_ok and hi_ok:
                 rep.holds(rule, f'{REPR}:{fc.name}:{fc.node.lineno}',
                           f'{pair} channel {i}: 0 <= {c} <= {b}')
